@@ -1,6 +1,7 @@
 import OrsoVerif.Model.PyVal
 import OrsoVerif.Model.Display
 import OrsoVerif.Generated.Display
+import OrsoVerif.Model.DisplayFmt
 /-! Driver glue for C18: decode frames / parameters, run the display model, encode the lines. -/
 namespace Drv.C18
 open Display
@@ -63,15 +64,54 @@ def encLine : Line Nat → PyVal
 
 def encTagged (l : Tagged) : PyVal := .list [.bool l.1, .str (l2s l.2)]
 
-def handle (op : String) (args : List PyVal) : Option (List PyVal) :=
-  match op, args with
-  | "visible", [.int n, .int limit, .bool tt, .bool lazy] => do
-    let n ← nat? n
-    let limit ← nat? limit
-    let rows := List.range n
-    pure [.list ((visibleRows srcArith rows limit tt lazy).map encLine), .int (indexWidth srcArith n limit tt lazy rows)]
-  | "render", [.int limit, .bool tt, .bool lazy, .bool showTypes, .int maxCol, .int dw, .bool strict,
-               .list names, .list types, .list rows] => do
+open PyKinds in
+def kindNames : List (String × Kind) :=
+  [("none", .none), ("bool", .boolV), ("int", .intV), ("float", .floatV), ("floatNaN", .floatNaN), ("dec", .decV),
+   ("decNaN", .decNaN), ("decSNaN", .decSNaN), ("str", .strV), ("datetime", .datetimeV), ("date", .dateV), ("time", .timeV),
+   ("bytes", .bytesV), ("bytearray", .bytearrayV), ("dict", .dictV), ("timedelta", .timedeltaV), ("mdn", .mdnV), ("ns", .nsV),
+   ("list", .listV), ("tuple", .tupleV), ("set", .setV), ("frozenset", .frozensetV), ("complex", .complexV)]
+
+open PyKinds in
+def npKindNames : List (String × NpKind) :=
+  [("ndarray", .ndarray), ("ndarray0", .ndarray0), ("td64", .td64), ("td64NaT", .td64NaT), ("td64Cal", .td64Cal), ("dt64", .dt64),
+   ("npInt", .npInt), ("npFloat", .npFloat), ("npFloatNaN", .npFloatNaN), ("npBool", .npBool), ("npComplex", .npComplex),
+   ("npStr", .npStr), ("npBytes", .npBytes)]
+
+open PyKinds in
+def clsNames : List (String × Cls) :=
+  [("bool", .bool), ("int", .int), ("float", .float), ("decimal.Decimal", .decimal), ("str", .str),
+   ("datetime.datetime", .datetime), ("datetime.date", .date), ("datetime.time", .time), ("datetime.timedelta", .timedelta),
+   ("bytes", .bytes), ("bytearray", .bytearray), ("dict", .dict), ("list", .list), ("tuple", .tuple), ("set", .set),
+   ("frozenset", .frozenset), ("complex", .complex), ("numpy.generic", .npGeneric), ("numpy.ndarray", .npNdarray),
+   ("numpy.timedelta64", .npTimedelta64)]
+
+open PyKinds in
+def attrNames : List (String × Attr) :=
+  [("days", .days), ("months", .months), ("nanoseconds", .nanoseconds), ("microseconds", .microseconds), ("seconds", .seconds),
+   ("strftime", .strftime), ("decode", .decode), ("items", .items), ("tolist", .tolist), ("dtype", .dtype), ("rjust", .rjust),
+   ("ljust", .ljust), ("astype", .astype)]
+
+open PyKinds in
+def npClsNames : List (String × NpCls) :=
+  [("integer", .integer), ("floating", .floating), ("bool_", .bool_), ("ndarray", .ndarray)]
+
+open PyKinds in
+def encErr : PyKinds.Err → String
+  | .typeError => "TypeError" | .valueError => "ValueError" | .attributeError => "AttributeError"
+
+open PyKinds in
+def kindName (k : Kind) : String := ((kindNames.find? fun p => p.2 == k).map (·.1)).getD "?"
+
+open PyKinds in
+/-- How the extracted chain formats a value of kind `k`: `["ok", index, token, bodyOk]` / `["err", name]` / `["none"]`. -/
+def encDispatch (k : Kind) : PyVal :=
+  match dispatch Gen.DisplayFmt.branches k with
+  | .ok (some (i, b)) => .list [.str "ok", .int i, .str (l2s b.token), .bool (b.body.ok k)]
+  | .ok none => .list [.str "none"]
+  | .error e => .list [.str "err", .str (encErr e)]
+
+def renderWith (cw : Char → Nat) (limit : Int) (tt lazy showTypes : Bool) (maxCol dw : Int) (strict : Bool)
+    (names types rows : List PyVal) : Option (List PyVal) := do
     let limit ← nat? limit
     let maxCol ← nat? maxCol
     let dw ← nat? dw
@@ -80,9 +120,30 @@ def handle (op : String) (args : List PyVal) : Option (List PyVal) :=
     let rows ← rows.mapM decodeRow
     let p : Params := { limit, tt, lazy, showTypes, maxCol, displayWidth := dw, strict }
     let f : Frame := { names, types, rows }
-    match renderLines srcArith cwModel p f with
+    match renderLines srcArith cw p f with
     | .ok ls => pure [.str "ok", .list (ls.map encTagged), .int (tableWidth (idxWidth srcArith p f) (colWidths srcArith p f))]
     | .error .unicodeDecode => pure [.str "err", .str "UnicodeDecodeError"]
+
+def handle (op : String) (args : List PyVal) : Option (List PyVal) :=
+  match op, args with
+  | "visible", [.int n, .int limit, .bool tt, .bool lazy] => do
+    let n ← nat? n
+    let limit ← nat? limit
+    let rows := List.range n
+    pure [.list ((visibleRows srcArith rows limit tt lazy).map encLine), .int (indexWidth srcArith n limit tt lazy rows)]
+  | "render", [.int limit, .bool tt, .bool lazy, .bool showTypes, .int maxCol, .int dw, .bool strict,
+               .list names, .list types, .list rows] =>
+    renderWith cwModel limit tt lazy showTypes maxCol dw strict names types rows
+  | "renderw", [.int limit, .bool tt, .bool lazy, .bool showTypes, .int maxCol, .int dw, .bool strict,
+               .list names, .list types, .list rows, .list widths] => do
+    -- `character_width` of the non-ASCII characters of the case, as measured by the harness with unicodedata
+    let tbl ← widths.mapM fun w => match w with
+      | .list [.int c, .int n] => some (c.toNat, n.toNat)
+      | _ => none
+    let cw : Char → Nat := fun c => match tbl.find? (fun p => p.1 == c.toNat) with
+      | some p => p.2
+      | none => cwModel c
+    renderWith cw limit tt lazy showTypes maxCol dw strict names types rows
   | "decode", [.bytes b] =>
     let enc (r : Except Err Str) : PyVal :=
       match r with
@@ -100,6 +161,33 @@ def handle (op : String) (args : List PyVal) : Option (List PyVal) :=
     pure [.list ((markdownLines srcArith limit maxCol { names, rows }).map fun l => .str (l2s l.text))]
   | "interval", [.int months, .int days, .int secs] =>
     pure [.list ((intervalParts srcArith months days secs).map fun p => .str (l2s p))]
+  | "pyfacts", [] =>
+    -- the tables of Model/PyKinds.lean, for comparison with the interpreter
+    pure [ .list (kindNames.map fun (kn, k) => .list [.str kn,
+              .list (clsNames.map fun (cn, c) => .list [.str cn, .bool (PyKinds.isInst k c)]),
+              .list (attrNames.map fun (an, a) => .list [.str an, .bool (PyKinds.hasAttr k a)]),
+              (match PyKinds.isNanOf k with | .ok b => .list [.str "ok", .bool b] | .error e => .list [.str "err", .str (encErr e)]),
+              .bool (PyKinds.iterable k)]),
+           .list (npKindNames.map fun (kn, k) => .list [.str kn,
+              .list (npClsNames.map fun (cn, c) => .list [.str cn, .bool (PyKinds.npSubdtype k c)]),
+              .bool (PyKinds.mapped k [.npNdarray]), .bool (PyKinds.mapped k [.npGeneric]), .bool (PyKinds.mapped k [.npTimedelta64]),
+              (match PyKinds.NG.eval k .isNaT with | .ok b => .list [.str "ok", .bool b] | .error e => .list [.str "err", .str (encErr e)]),
+              (match PyKinds.NG.eval k .calUnit with | .ok b => .list [.str "ok", .bool b] | .error e => .list [.str "err", .str (encErr e)])]) ]
+  | "fmtkind", [.str kn] => do
+    let k ← (kindNames.find? fun p => p.1 == kn).map (·.2)
+    pure [encDispatch k, .str (l2s (DisplayFmt.tagToken (DisplayFmt.kindTag k)))]
+  | "fmtnp", [.str kn] => do
+    let k ← (npKindNames.find? fun p => p.1 == kn).map (·.2)
+    let through := PyKinds.mapped k Gen.DisplayFmt.mapGuard
+    match Gen.DisplayFmt.mapper.run k with
+    | .error e => pure [.bool through, .list [.str "err", .str (encErr e)]]
+    | .ok r =>
+      let rn : String := match r with
+        | .tolist => "tolist" | .none => "none" | .namespace_ => "namespace" | .int => "int" | .float => "float"
+        | .bool => "bool" | .list => "list" | .str => "str"
+      match PyKinds.resKind k r with
+      | none => pure [.bool through, .list [.str "err", .str "conversion", .str rn]]
+      | some k' => pure [.bool through, .list [.str "ok", .str (kindName k'), .str rn], encDispatch k']
   | _, _ => none
 
 end Drv.C18
